@@ -19,7 +19,7 @@ from __future__ import annotations
 import ast
 
 from ..absint import Interp, Raised, Record, Unsupported
-from ..astx import call_name, enclosing_stmt, expand, facts_at, has_fact, kwarg, last
+from ..astx import dep_slice, call_name, enclosing_stmt, expand, facts_at, has_fact, kwarg, last
 from ..cfg import CFG, exprs_in_node
 from ..index import AnchorError, enclosing_function, parent, qualname_of
 from ..selftest import Twin
@@ -206,7 +206,7 @@ def run(chk) -> None:
             ev = kwarg(c, "event")
             evt = ast.unparse(ev).split(".")[-1] if ev is not None else "n/a"
             rc = kwarg(c, "recovery_counts")
-            chk.ob("C08.R2", f"{last(call_name(c))} built in {qualname_of(fn)} carries the lineage's recovery_counts", rc is not None and "recovery_counts" in ast.unparse(expand(rc, c, depth=1)), m=mod, node=c, fn=fn,
+            chk.ob("C08.R2", f"{last(call_name(c))} built in {qualname_of(fn)} carries the lineage's recovery_counts", rc is not None and any(a_.endswith(".recovery_counts") or ".recovery_counts." in a_ or a_ == "recovery_counts" for a_ in dep_slice(fn, rc).attrs() | {ast.unparse(x) for x in dep_slice(fn, rc).exprs if isinstance(x, ast.Name)}), m=mod, node=c, fn=fn,
                    instance=f"lineage:{last(call_name(c))}:{qualname_of(fn).split('.')[-1]}:{evt}", reason="recovery_counts is not copied: the handler budget restarts for this lineage")
     chk.floor("C08.R2", "lineage construction sites", sites, 8)
     chk.observe("waiter replays (`EventAttempt(event=waiter.event)`) start with empty recovery_counts: a lineage that passes through wait_for_event restarts its handler budget (not gated; outside the anchored mechanism)")
